@@ -1390,6 +1390,18 @@ def _pub_fields(struct_text):
     return struct_text[:toks[o].start] + "{ " + ", ".join(parts) + " }"
 
 
+def nmirlits(src, log):
+    """mirgen's literal value / type constructors: `Arc::new(Value::None)` -> `vx_value_none()`, `unit!()` -> `vx_unit()`,
+    `numeric!()` -> `vx_numeric()` (opaque helpers of the unit: the generated VALUE is never part of a C05 contract)"""
+    n = 0
+    for a, b in (("Arc::new(Value::None)", "vx_value_none()"), ("Arc::new(mir::Value::None)", "vx_value_none()"), ("unit!()", "vx_unit()"), ("numeric!()", "vx_numeric()")):
+        n += src.count(a)
+        src = src.replace(a, b)
+    if n:
+        log.append(f"nmirlits: {n} literal value / type constructors -> opaque helpers")
+    return src
+
+
 def normalise(src, rules, log, ctx=None):
     ctx = ctx or {}
     for r in rules:
@@ -1445,6 +1457,8 @@ def normalise(src, rules, log, ctx=None):
             src = n7_sum(src, log)
         elif r == "n10":
             src = n10_entry_append(src, log)
+        elif r == "nmirlits":
+            src = nmirlits(src, log)
         elif r == "n22":
             src = n22_option_map_or(src, log)
         elif r == "n21":
